@@ -49,10 +49,14 @@ def analyse(repo: Repo) -> List[Tuple[str, bool, str, str]]:
         out.append(("real-type", typ == want_t, f"{where}: spec.type = {typ}",
                     f"the dispatched type must be the substituted {'origin of the Annotated' if ann else 'declared'} type ({want_t})"))
         if ann:
-            ok = annt in (REAL("spec.type"), "spec.type")
+            # the alias key must have the owner's type parameters substituted: a strategy registered for Annotated[date, m]
+            # has to match the field Annotated[T, m] of G[date] (the un-substituted alias was accepted here until a round-7
+            # change showed the difference)
+            ok = annt == REAL("spec.type")
             out.append(("annotated-innermost", ok, f"{where}: spec.annotated_type = {annt}",
                         "an Annotated type met during dispatch must become spec.annotated_type unconditionally: the innermost annotations (Alias, "
-                        "serialization strategies registered for the alias, Discriminator) are the ones that apply to the wrapped type"))
+                        "serialization strategies registered for the alias, Discriminator) are the ones that apply to the wrapped type; "
+                        "it is stored with the owner's type parameters substituted (get_real_type), so that alias keys match in generic dataclasses"))
         else:
             ok = annt == "PRIOR_ANNOTATED"
             out.append(("annotated-inherit", ok, f"{where}: spec.annotated_type = {annt}",
